@@ -478,6 +478,10 @@ def run(P, R, L):
     blind.prog2_rotation_needs_a_non_empty_memtable(P, R, L)
     R.clause("ORD-12 (shared worker)", "Drop for DB stops and joins the compaction thread on every path and never unwraps a sole-ownership test of the worker that client iterators share")
     blind.ord12b_close_does_not_unwrap_shared_ownership(P, R, L)
+    R.clause("GRD-38", "build_group_commit_batch fails only under the two conditions its caller excluded (the `?` on it while the writer heads the queue - ORD-11's exception - cannot fire)")
+    blind.grd38_group_builder_errors_are_unreachable(P, R, L)
+    R.clause("TS-3", "no abandon() of a table builder is reachable from behind its finalize() (abandon asserts that the file was not closed)")
+    R.once(blind.ts3_no_abandon_after_finalize, P, R, L)
     R.clause("PAIR-10", "a table builder that was finalized/abandoned is removed from the compaction state on every path (a later abandon() of a closed "
              "builder would panic the background thread while the scheduled flag is set)")
     K.pair10_builder_slot(P, R, L)
